@@ -286,6 +286,11 @@ func (e *Exec) pureAccessor(fr *frame, st *State, ci ssa.CallInstruction, f *typ
 	}
 	res := e.pureMethod(f, sig, ts)
 	res.T = rt
+	if f.Name() == "Variadic" && recvClass == "*go/types.Signature" && len(args) == 1 && len(args[0].L) == 1 && len(res.L) == 1 {
+		// A-types: a variadic signature has a last parameter (of slice type)
+		params := e.ctx.uf("types.Params", SInt, args[0].L[0])
+		st.pc = append(st.pc, Implies(res.L[0], Ge(e.ctx.uf("types.Len", SInt, params), IntLit(1))))
+	}
 	if nonNilAccessor[f.Name()] && len(res.L) == 1 && res.L[0].Sort == SInt && isRefType(rt) {
 		st.pc = append(st.pc, Not(Eq(res.L[0], IntLit(0))))
 	}
@@ -590,7 +595,8 @@ func init() {
 			func(e *Exec, fr *frame, st *State, ci ssa.CallInstruction, args []SV, rt types.Type) SV {
 				s := args[0]
 				A := e.heapGet(st, heapSym("A", "string", ""), ArrSort(SInt, ArrSort(SInt, SString)))
-				return scalar(rt, e.ctx.uf("path.Join", SString, Select(A, s.L[0]), s.L[1], s.L[2]))
+				// on a slash-separated platform filepath.Join and path.Join are the same function (A-os)
+				return scalar(rt, e.ctx.uf("filepath.Join", SString, Select(A, s.L[0]), s.L[1], s.L[2]))
 			}},
 		"path/filepath.Join": {"pure", "filepath.Join is a deterministic total function of its element sequence (uninterpreted)",
 			func(e *Exec, fr *frame, st *State, ci ssa.CallInstruction, args []SV, rt types.Type) SV {
